@@ -7,6 +7,7 @@ import (
 	"fmt"
 	"runtime"
 	"sort"
+	"strings"
 	"sync/atomic"
 	"testing"
 	"time"
@@ -192,6 +193,9 @@ type plInc struct { // one incarnation of a key: from the creation of its map sl
 	notified int
 	settled  int64 // virtual time at which its latest NEW/reschedule event was delivered; -1 while one is pending
 	deadline int64 // deadline governing the entry, read right after the write (the Entry object may be recycled later)
+	reads    int   // Gets that hit this incarnation
+	lastCost int   // cost of the latest write
+	recosted bool  // a later write changed the cost (UpdateCost also promotes the entry, like a read)
 }
 
 type plCall struct {
@@ -222,6 +226,8 @@ type plRun struct {
 	// classes
 	reordered, delBeforeInsert, evictBetweenDelete, raced bool
 	// loading store on top (cases with Loading)
+	readOracle        bool         // C08 pool tier
+	keyReads          map[int]int  // hits per key over the whole case (a buffered hit on an earlier incarnation of the same key may legitimately be credited to the key's next incarnation: same key, same hash)
 	nCalls            atomic.Int64 // listener calls so far (read by the Wait caller of a marker batch)
 	slow              atomic.Bool  // the listener sleeps 300 us per call while a marker batch is applied
 	waited            bool
@@ -276,7 +282,7 @@ func (r *plRun) deliver(i int) *verifkit.Failure {
 	if r.staleForPooled(i) {
 		r.staleDelivered = true
 		r.x.Class("stale-event-for-pooled-entry")
-		if verifkit.Avoid("C05-pool-stale-event") {
+		if verifkit.Avoid("C05-pool-stale-event") || plAlwaysAvoidStale {
 			r.x.Exclude("C05-pool-stale-event")
 			return nil
 		}
@@ -384,6 +390,10 @@ func (r *plRun) apiSet(k, cost int, ttl int64) {
 	}
 	r.lastInc = in
 	r.collect()
+	if len(in.values) > 0 && in.lastCost != cost {
+		in.recosted = true
+	}
+	in.lastCost = cost
 	in.lastVal = v
 	in.values = append(in.values, v)
 	in.deadline = e.expire.Load()
@@ -399,6 +409,12 @@ func (r *plRun) apiLoad(k, cost int, ttl int64) {
 	r.loadVal, r.loadCost, r.loadTTL, r.loaderRan = v, cost, ttl, false
 	_, _ = r.ls.Get(context.Background(), k)
 	e := r.mapGet(k)
+	if !r.loaderRan {
+		if in := r.resident[k]; in != nil {
+			in.reads++ // answered from the cache: a hit
+		}
+		r.keyReads[k]++
+	}
 	if !r.loaderRan || e == nil || e.value != v {
 		r.lastInc = nil
 		r.collect()
@@ -414,6 +430,10 @@ func (r *plRun) apiLoad(k, cost int, ttl int64) {
 	}
 	r.lastInc = in
 	r.collect()
+	if len(in.values) > 0 && in.lastCost != cost {
+		in.recosted = true
+	}
+	in.lastCost = cost
 	in.lastVal = v
 	in.values = append(in.values, v)
 	in.deadline = e.expire.Load()
@@ -498,6 +518,16 @@ func (r *plRun) structural() *verifkit.Failure {
 			return nil
 		}
 		return f
+	}
+	if r.readOracle {
+		// C08 at store level: only a delivered hit (or a cost-changing update) moves an entry into the
+		// protected region, so an entry there that no Get ever hit and whose cost never changed has been
+		// credited with somebody else's read
+		for k, in := range r.resident {
+			if tp, ok := view.where[in.ptr]; ok && tp == LIST_PROTECTED && r.keyReads[k] == 0 && !in.recosted {
+				return r.failf("reads/invented-access", "key %d (value %d) was never read in this case, yet its entry is in the protected region: a read event recorded for another key was applied to it (entry pool: %v)", k, in.lastVal, r.c.Pool)
+			}
+		}
 	}
 	if !r.accounting {
 		return nil
@@ -642,8 +672,14 @@ func execPipeline(c plCase, x *verifkit.Ctx, accounting, notify, reclaim bool) *
 
 var plLastRun atomic.Pointer[plRun]
 
+// set by tests of other properties that run the pipeline harness with the entry pool on: the
+// trigger of known finding C05-pool-stale-event is always excluded there
+var plAlwaysAvoidStale, plReadOracle bool
+
 func execPipelineInner(c plCase, x *verifkit.Ctx, accounting, notify, reclaim bool) (fail *verifkit.Failure) {
 	r := &plRun{c: c, x: x, resident: map[int]*plInc{}, byVal: map[int]*plInc{}, accounting: accounting, notify: notify, reclaim: reclaim}
+	r.readOracle = plReadOracle
+	r.keyReads = map[int]int{}
 	plLastRun.Store(r)
 	defer func() {
 		VerifExpireYieldFn = nil
@@ -738,7 +774,12 @@ func execPipelineInner(c plCase, x *verifkit.Ctx, accounting, notify, reclaim bo
 			r.collect()
 		case "get":
 			for j := 0; j < st.N; j++ {
-				r.s.Get(st.K)
+				if _, ok := r.s.Get(st.K); ok {
+					if in := r.resident[st.K]; in != nil {
+						in.reads++
+					}
+					r.keyReads[st.K]++
+				}
 			}
 		case "deliver":
 			if len(r.pool) > 0 {
@@ -946,6 +987,53 @@ func TestVerifC20Pipeline(t *testing.T) {
 			Steps: []plStep{{Op: "set", K: 3, Cost: 1}, {Op: "set", K: 3, Cost: 3}, {Op: "set", Cost: 1}, {Op: "set", K: 3, Cost: 1},
 				{Op: "set", K: 1, Cost: 3, I: 1}, {Op: "del", K: 3, I: 1}, {Op: "deliver", I: 1}}}},
 		Rule:        "C20 (pipeline tier): the C02/C05 pipeline-owner generator (event arrival orders, ticks, expiry races); every delivered event travels in one batch with the marker of a real Wait call, and the removal listener is slow (300 us) while that batch is applied; the Wait caller records the number of notifications delivered and Len the moment it returns, which must equal their values at the end of the batch (no eviction caused by earlier writes may happen after Wait returned); the C02 and C05 oracles run as well; one fixed case reproduces the overlap in which applying a Delete's event raises the policy total above capacity",
+		Assumptions: plAssumptions,
+	})
+}
+
+// C08 (entry-pool tier): read events and recycled Entry objects. A hit leaves an event
+// (entry, hash) in a stripe; if the entry is evicted or expires and its object is handed out
+// again for another key before the stripe drains, the event must be dropped.
+func TestVerifC08Pool(t *testing.T) {
+	vkOwnPipeline()
+	plAlwaysAvoidStale, plReadOracle = true, true
+	gen := genPipeline(func(*rapid.T) bool { return true }, true)
+	verifkit.Run(t, verifkit.Spec[plCase]{
+		ID: "C08",
+		Gen: func(t *rapid.T) plCase {
+			c := gen(t)
+			c.Pool = true
+			if c.MaxSize < 4 {
+				c.MaxSize = 4 + c.MaxSize
+			}
+			if c.Keys < 4 {
+				c.Keys = 4
+			}
+			// scenario: hits on A stay buffered, A expires and its object is recycled for B, B is pushed
+			// out of the window by D, then 16 hits on C drain the stripe
+			a, b, cc, d := c.Keys, c.Keys+1, c.Keys+2, c.Keys+3 // keys the generated steps never touch
+			n := rapid.IntRange(1, 12).Draw(t, "bufferedHits")
+			sc := []plStep{{Op: "set", K: cc, Cost: 1}, {Op: "set", K: a, Cost: 1, TTL: 1000000}, {Op: "quiesce"},
+				{Op: "get", K: a, N: n}, {Op: "tick", Dt: 2000000000}, {Op: "quiesce"}, {Op: "set", K: b, Cost: 1}, {Op: "set", K: d, Cost: 1}, {Op: "quiesce"},
+				{Op: "get", K: cc, N: 16}, {Op: "quiesce"}}
+			if rapid.Bool().Draw(t, "scenarioFirst") {
+				c.Steps = append(sc, c.Steps...)
+			} else {
+				c.Steps = append(c.Steps, sc...)
+			}
+			return c
+		},
+		Exec: func(c plCase, x *verifkit.Ctx) *verifkit.Failure {
+			f := execPipeline(c, x, false, false, false)
+			if f != nil && (strings.HasPrefix(f.Sig, "pool-stale-event/") || !strings.HasPrefix(f.Sig, "reads/")) && !f.Sticky {
+				return nil // everything but the read oracle belongs to C02/C05 (and to their known finding with the pool on)
+			}
+			if f == nil && !x.Excluded() {
+				x.NonTrivial()
+			}
+			return f
+		},
+		Rule:        "C08 (entry-pool tier): the pipeline-owner generator with UseEntryPool(true) plus the scenario 'buffered hits on a TTL'd key, the key expires, its Entry object is handed out again for another key, that key leaves the window, the stripe drains'; after every step no entry whose key was never hit by a Get and whose cost never changed may sit in the protected region (only a delivered hit or a cost update promotes); cases that would deliver a queued write event to a recycled Entry object are excluded (known finding C05-pool-stale-event)",
 		Assumptions: plAssumptions,
 	})
 }
